@@ -11,7 +11,8 @@ from common import *
 
 ALL_INVS = ['I_SingleFlight', 'I_BurstCostsOne', 'I_NoEarlyRelease', 'I_NoUntimelyPublish', 'I_StoreMatchesKey', 'I_HitServed', 'I_LabelTruth', 'I_OnlyStoredIsShared',
             'I_KeyMatch', 'I_HitFresh', 'I_AgeTruth', 'I_RefetchAfterExpiry', 'I_HfpPass', 'I_HfpNeverCached',
-            'I_HfpLapses', 'I_PurgeEffective', 'I_BadRecordIsMiss', 'I_NoOwnError', 'I_NoStuck']
+            'I_HfpLapses', 'I_PurgeEffective', 'I_BadRecordIsMiss', 'I_NoOwnError', 'I_NoStuck', 'I_PublishedIsPersisted',
+            'I_NoWildRemoval']
 
 
 def purge_signature(inv, trace, beh=None):
@@ -78,9 +79,20 @@ def generate(gens, tier, res):
         gen, _ = tlc_stats(out)
         res['transitions'] += gen
         for i, b in enumerate(bs):
-            behs.append({'id': '%s-s%d-%d' % (mod, seed(), i), 'cfg': cfg, 'steps': b})
+            behs.append(variant({'id': '%s-s%d-%d' % (mod, seed(), i), 'cfg': cfg, 'steps': b}, i))
         res['generated'][mod] = len(bs)
     return behs
+
+
+def variant(b, i):
+    """concretisation choices that vary from behaviour to behaviour (the specification does not distinguish them):
+    every odd one has the Tick that follows a publication moved inside the publishing step (after its first clock
+    read); every fifth one has the origin label its cacheable answers gzip without their being gzip"""
+    if i % 2 == 1:
+        b['tick_inside'] = True
+    if i % 5 == 2 and not b['cfg'].get('bodies'):
+        b['cfg'] = dict(b['cfg'], bodies='corrupt_gzip')
+    return b
 
 
 def directed(names):
@@ -88,9 +100,11 @@ def directed(names):
     behs = []
     for n in names:
         for path in sorted(glob.glob(os.path.join(VERIF, 'scripts', n))):
-            for b in json.load(open(path)):
+            for i, b in enumerate(json.load(open(path))):
                 b = dict(b)
                 b['id'] = 'script:' + os.path.basename(path) + ':' + str(b.get('id', ''))
+                if 'cover' in os.path.basename(path):
+                    b = variant(b, i)
                 behs.append(b)
     return behs
 
@@ -189,7 +203,8 @@ def run(pid, tier, spec, replay_file=None, extra=None):
     validated = 0
     events = 0
     samples = []
-    kf = [f for f in known_findings().get('findings', []) if f.get('property') == pid]
+    kf = [f for f in known_findings().get('findings', []) if f.get('property') == pid or pid in f.get('also_seen_by', [])]
+    refused = 0
     for part, reports, lines in outs:
         byid = {b['id']: b for b in part}
         for r in reports:
@@ -199,6 +214,11 @@ def run(pid, tier, spec, replay_file=None, extra=None):
                 steps = byid[r['id']]['steps'][: r.get('drift_step', 0) + 1]
                 if any(s.get('a') == 'PurgeStart' and s.get('d') == '' for s in steps):
                     nondet += 1
+                    continue
+                # a schedule generated from a specification with weaker locking than the code's: the code's locks
+                # may refuse to follow it (that is what they are for)
+                if byid[r['id']]['cfg'].get('relaxed'):
+                    refused += 1
                     continue
                 drift.append({'id': r['id'], 'drift': r['drift']})
             if r.get('stuck'):
@@ -252,7 +272,7 @@ def run(pid, tier, spec, replay_file=None, extra=None):
     for f, bid in known_hits:
         if f['id'] not in seen:
             seen.add(f['id'])
-            print('KNOWN-FINDING: property=%s %s' % (pid, f['what']))
+            print('KNOWN-FINDING: property=%s %s' % (f.get('property', pid), f['what']))
     for d in drift[:5]:
         print('DRIFT property=%s behaviour=%s %s' % (pid, d['id'], d['drift']))
     for inv, path, bid in violations:
@@ -272,6 +292,7 @@ def run(pid, tier, spec, replay_file=None, extra=None):
         'replayed_steps_followed_exactly': followed,
         'conformance_drift': len(drift),
         'scripts_with_uncontrollable_purge_order': nondet,
+        'relaxed_schedules_refused_by_the_code': refused,
         'drift_samples': drift[:5],
         'observed_events_validated': events,
         'invariants_evaluated_on_real_traces': invs,
